@@ -471,6 +471,9 @@ func (l *irLoader) unwrapFuncRefExpr(filter ir.FilterExpr) (*types.Func, error) 
 		}
 		pkgName := pkgID.Name
 		typeName := pkgAndType.Sel.Name
+		if pkgPath, ok := l.itab.Lookup(pkgName); ok {
+			pkgName = pkgPath // the package name goes through the group's import table, like everywhere else
+		}
 		fqn := pkgName + "." + typeName
 		typ, err := l.state.FindType(l.importer, l.pkg, fqn)
 		if err != nil {
